@@ -13,6 +13,7 @@ REPO = os.environ.get('REPO', '/repo')
 LEAN = os.path.join(VERIF, 'lean')
 WORK = os.path.join(VERIF, '.work')
 DRIVER = os.path.join(LEAN, '.lake', 'build', 'bin', 'tvdriver')
+NPROC = min(16, os.cpu_count() or 1)
 ALLOWED_AXIOMS = {'propext', 'Classical.choice', 'Quot.sound'}
 FORBIDDEN = re.compile(r'\b(sorry|admit|native_decide|bv_decide|implemented_by|unsafe)\b|^\s*axiom\s|maxHeartbeats\s+0\b', re.M)
 
@@ -187,11 +188,7 @@ class Driver:
         self.available = os.path.exists(DRIVER)
         self.calls = 0
         self.lines = 0
-    def run(self, lines: list[str], timeout=3600) -> list[str]:
-        if not self.available:
-            raise RuntimeError('driver not built')
-        if not lines:
-            return []
+    def _run_one(self, lines, timeout):
         data = ('\n'.join(lines) + '\n').encode()
         # big stack: deep model recursion mirrors the implementation's
         p = subprocess.run(['bash', '-c', 'ulimit -s unlimited 2>/dev/null || ulimit -s 1000000 2>/dev/null; exec "$0"', DRIVER],
@@ -199,11 +196,29 @@ class Driver:
         out = p.stdout.decode().split('\n')
         if out and out[-1] == '':
             out.pop()
+        if p.returncode != 0 or len(out) != len(lines):
+            raise DriverCrash(f'driver rc={p.returncode} got {len(out)} of {len(lines)} replies; stderr={p.stderr.decode()[-400:]}; next line={lines[len(out)][:300] if len(out) < len(lines) else ""}', out)
+        return out
+
+    def run(self, lines: list[str], timeout=3600, procs=None) -> list[str]:
+        if not self.available:
+            raise RuntimeError('driver not built')
+        if not lines:
+            return []
         self.calls += 1
         self.lines += len(lines)
-        if p.returncode != 0 or len(out) != len(lines):
-            raise DriverCrash(f'driver rc={p.returncode} got {len(out)} of {len(lines)} replies; stderr={p.stderr.decode()[-400:]}', out)
-        return out
+        procs = procs or min(NPROC, max(1, len(lines) // 200))
+        if procs <= 1:
+            return self._run_one(lines, timeout)
+        from concurrent.futures import ThreadPoolExecutor
+        # interleaved chunks balance expensive and cheap lines
+        chunks = [lines[i::procs] for i in range(procs)]
+        with ThreadPoolExecutor(procs) as ex:
+            outs = list(ex.map(lambda c: self._run_one(c, timeout), chunks))
+        res = [None] * len(lines)
+        for i, o in enumerate(outs):
+            res[i::procs] = o
+        return res
 
 
 class DriverCrash(Exception):
